@@ -108,3 +108,53 @@ Example ex_reads_only_ok :
       {| h_name := "b"; h_acc := [ {| a_loc := "v"; a_kind := ARead; a_sync := false; a_via := "b" |};
                                    {| a_loc := "once"; a_kind := ARead; a_sync := false; a_via := "b" |} ] |} ] = true.
 Proof. vm_compute. reflexivity. Qed.
+
+(* the external-symbol and index-read queries (second strengthening) on a small state: ids ending in an
+   odd byte are "odd"; label = null | c0 | c1 | c2 from the last byte mod 5; group 103 ("g") is odd *)
+Example ex_external_symbol_queries :
+  let st := {| w_items := [it 48 10 (Some 103%N) 5 [3%N]; it 49 11 (Some 104%N) 2 []; it 51 12 None 7 [4%N; 3%N]];
+               w_links := [([48%N], [103%N]); ([51%N], [104%N])] |} in
+  eval_query (QExtBool true) st = AIds [[49%N]; [51%N]]
+  /\ eval_query (QExtBool false) st = AIds [[48%N]]
+  /\ eval_query (QExtStr [99%N; 50%N]) st = AIds []
+  /\ eval_query (QExtStr [99%N; 48%N]) st = AIds [[48%N]]
+  /\ eval_query (QExtStr [99%N; 49%N]) st = AIds [[51%N]]
+  /\ eval_query (QExtBoolSort 0) st = AIds [[49%N]; [51%N]; [48%N]]
+  /\ eval_query (QExtStrSort 100) st = AIds [[49%N]; [48%N]; [51%N]]
+  /\ eval_query QExtGroup st = AIds [[48%N]]
+  /\ eval_query QExtWatch st = AIds [[48%N]]
+  /\ eval_query (QTagCursor [3%N] false) st = AIds [[51%N]; [48%N]]
+  /\ eval_query (QTagKeys true) st = AIds [[3%N]; [4%N]]
+  /\ eval_query (QLinked [51%N] [104%N]) st = AIds [[104%N]]
+  /\ eval_query (QLinked [51%N] [103%N]) st = AIds []
+  /\ eval_placed (3%nat, QExtBool false) st = eval_query (QExtBool false) st.
+Proof. vm_compute. repeat split; reflexivity. Qed.
+
+(* the two shapes of a write on a read path into an object registered once on a store (seeded/C18-w2-2,
+   C18-w2-3), as the translator reports them: the literal stored in ExternalSymbol.impl writing a buffer
+   of the constructor that created it; an index lookup appending the key to the index's own path slice *)
+Definition captured_buffer_table : list helper :=
+  [ {| h_name := "boltz.BaseStore.QueryIds";
+       h_acc := [ {| a_loc := "boltz.NewBoolFuncSymbol$buf"; a_kind := AWrite; a_sync := false;
+                     a_via := "boltz.NewBoolFuncSymbol$lit1 assigns to buf, a variable of the function that created the literal" |};
+                  {| a_loc := "boltz.NewBoolFuncSymbol$f"; a_kind := ARead; a_sync := false; a_via := "boltz.NewBoolFuncSymbol$lit1" |} ] |} ].
+
+Definition spare_capacity_table : list helper :=
+  [ {| h_name := "boltz.setIndex.Read";
+       h_acc := [ {| a_loc := "boltz.setIndex.indexPath[spare capacity]"; a_kind := AWrite; a_sync := false;
+                     a_via := "boltz.setIndex.getValuesBucket appends to the shared slice index.indexPath without copying it" |} ] |};
+    {| h_name := "boltz.setIndex.ReadKeys";
+       h_acc := [] |} ].
+
+Example registered_object_tables_refuted :
+  conflicts captured_buffer_table = [("boltz.BaseStore.QueryIds", "boltz.BaseStore.QueryIds", "boltz.NewBoolFuncSymbol$buf")]
+  /\ conflicts spare_capacity_table = [("boltz.setIndex.Read", "boltz.setIndex.Read", "boltz.setIndex.indexPath[spare capacity]")]
+  /\ no_conflict captured_buffer_table = false /\ no_conflict spare_capacity_table = false.
+Proof. vm_compute. repeat split; reflexivity. Qed.
+
+(* a stored literal that only reads what it captured (the external function it wraps) is accepted *)
+Example ex_captured_read_only_ok :
+  no_conflict
+    [ {| h_name := "boltz.BaseStore.QueryIds";
+         h_acc := [ {| a_loc := "boltz.NewBoolFuncSymbol$f"; a_kind := ARead; a_sync := false; a_via := "boltz.NewBoolFuncSymbol$lit1" |} ] |} ] = true.
+Proof. vm_compute. reflexivity. Qed.
